@@ -100,6 +100,7 @@ class Sim:
         self.contacts = {n: [] for n in self.names}      # (time, ok)
         self.run = {n: [] for n in self.names}           # failed contact times of the current run
         self.ever_failed = set()
+        self.since = {}                                   # server -> index into contacts[] where its current stay in rotation began
         self.out = set()                                  # servers observed out of rotation
         self.viol = []
         self.stats = {"failed_contacts": 0, "evictions": 0, "reroutes": 0, "revivals": 0, "window_checks": 0,
@@ -230,7 +231,10 @@ class Sim:
             n = self.addr2name.get(addr)
             if n is None:
                 continue
-            self.contacts[n].append((t, ok))
+            neutral = ok and exc is not None and not isinstance(exc, OSError)
+            self.contacts[n].append((t, None if neutral else ok))
+            if neutral:
+                continue
             if ok:
                 self.run[n] = []
             else:
@@ -278,8 +282,10 @@ class Sim:
                     # observed eviction: the contacts before this call must justify it
                     self.out.add(o)
                     self.stats["evictions"] += 1
-                    hist = [ok for (t, ok) in self.contacts[o]]
-                    # contacts made by *this* call to o do not count (routing was decided before them)
+                    hist = [ok for (t, ok) in self.contacts[o] if ok is not None]
+                    # contacts made by *this* call to o do not count (routing was decided before them); exchanges that
+                    # reached the server but ended in a memcached error are neither failures nor the kind of success after
+                    # which the library forgets a failure (recorded as None and skipped)
                     tail = list(hist)
                     if tail and tail[-1]:
                         tail.pop()
@@ -295,6 +301,7 @@ class Sim:
             elif dest == {o} and o in self.out:
                 self.out.discard(o)
                 self.stats["revivals"] += 1
+
         # ---- exceptions
         rotation = list(hc.hasher.nodes)
         if exc is not None:
